@@ -52,6 +52,64 @@ pub fn parse_header(b: &[u8]) -> Option<Header> {
     })
 }
 
+/// The serialized value (8-byte length prefix + bytes) of a compressed entry; None if the stream is damaged.
+pub fn decompress(bytes: &[u8], compression: u8) -> Option<Vec<u8>> {
+    use std::io::Read;
+    let mut len = [0u8; 8];
+    let mut out = vec![];
+    match compression {
+        1 => {
+            let mut d = zstd::Decoder::new(bytes).ok()?;
+            d.read_exact(&mut len).ok()?;
+            let l = u64::from_le_bytes(len) as usize;
+            if l > (1 << 26) {
+                return None;
+            }
+            out.extend_from_slice(&len);
+            out.resize(8 + l, 0);
+            d.read_exact(&mut out[8..]).ok()?;
+        }
+        2 => {
+            let mut d = lz4::Decoder::new(bytes).ok()?;
+            d.read_exact(&mut len).ok()?;
+            let l = u64::from_le_bytes(len) as usize;
+            if l > (1 << 26) {
+                return None;
+            }
+            out.extend_from_slice(&len);
+            out.resize(8 + l, 0);
+            d.read_exact(&mut out[8..]).ok()?;
+        }
+        _ => return None,
+    }
+    Some(out)
+}
+
+/// Decompresses a value stream that must hold exactly `n` bytes: None if fewer can be read or more follow.
+pub fn decompress_exact(bytes: &[u8], compression: u8, n: usize) -> Option<Vec<u8>> {
+    use std::io::Read;
+    let mut out = vec![0u8; n];
+    let mut extra = [0u8; 1];
+    match compression {
+        1 => {
+            let mut d = zstd::Decoder::new(bytes).ok()?;
+            d.read_exact(&mut out).ok()?;
+            if matches!(d.read(&mut extra), Ok(1)) {
+                return None;
+            }
+        }
+        2 => {
+            let mut d = lz4::Decoder::new(bytes).ok()?;
+            d.read_exact(&mut out).ok()?;
+            if matches!(d.read(&mut extra), Ok(1)) {
+                return None;
+            }
+        }
+        _ => return None,
+    }
+    Some(out)
+}
+
 /// An entry as found in a byte range.
 #[derive(Clone, Debug)]
 pub struct ParsedEntry {
@@ -79,6 +137,15 @@ pub fn parse_entry_at(buf: &[u8], at: usize) -> Option<ParsedEntry> {
     let value = if h.compression == 0 && h.value_len >= 8 {
         let l = u64::from_le_bytes(buf[body..body + 8].try_into().unwrap()) as usize;
         if l + 8 == h.value_len { Some(check_value(&buf[body + 8..body + 8 + l])) } else { None }
+    } else if checksum_ok && h.compression != 0 {
+        // compressed `Vec<u8>`: decompress with the library directly (only entries whose checksum matches)
+        decompress(&buf[body..body + h.value_len], h.compression).and_then(|raw| {
+            if raw.len() < 8 {
+                return None;
+            }
+            let l = u64::from_le_bytes(raw[..8].try_into().unwrap()) as usize;
+            if l + 8 == raw.len() { Some(check_value(&raw[8..])) } else { None }
+        })
     } else {
         None
     };
